@@ -55,7 +55,7 @@ struct SetDriver : DriverBase<SetDriver<Set, K, N, MCmp, Which, Transparent>> {
 
     static auto mk(int v) -> K { return K(v); }
 
-    auto raw(int s) -> void* { return arena_prepare(s, sizeof(Set), plan.cfg, static_cast<uint64_t>(ctx.step + 1)); }
+    auto raw(int s) -> void* { return arena_prepare(s, sizeof(Set), plan.cfg, static_cast<uint64_t>(ctx.step + 1), alignof(Set)); }
 
     void create_default(int s)
     {
@@ -1000,7 +1000,7 @@ struct MultisetDriver : DriverBase<MultisetDriver<K, N, Cmp, MCmp>> {
             }
             std::vector<int> want = vals;
             std::stable_sort(want.begin(), want.end(), MCmp{});
-            void* mem = arena_prepare(0, sizeof(MS), plan.cfg, i);
+            void* mem = arena_prepare(0, sizeof(MS), plan.cfg, i, alignof(MS));
             MS* ms    = nullptr;
             std::vector<int> got;
             got.reserve(N + 1);
